@@ -20,6 +20,7 @@ import (
 	authtypes "github.com/cosmos/cosmos-sdk/x/auth/types"
 	authvesting "github.com/cosmos/cosmos-sdk/x/auth/vesting/types"
 	paramstypes "github.com/cosmos/cosmos-sdk/x/params/types"
+	upgradetypes "github.com/cosmos/cosmos-sdk/x/upgrade/types"
 	"pgregory.net/rapid"
 )
 
@@ -74,7 +75,26 @@ func subspaceWithTable(ss paramstypes.Subspace, tbl paramstypes.KeyTable) params
 func TestC16(t *testing.T) {
 	st := StatsFor("C16")
 	rapid.Check(t, func(t *rapid.T) {
-		v := NewVestWorld(nil)
+		runC16(t, st, NewVestWorld(nil), false)
+	})
+}
+
+// TestC16Handler runs the same generated pre-upgrade states through the real upgrade handler:
+// x/upgrade ApplyUpgrade("v1.2.0") -> CreateUpgradeHandler -> ICA module init, key tables,
+// module manager RunMigrations (from consensus version 2 of the three custom modules) and the
+// three v120 steps.  The world is a chain whose genesis has no interchain-accounts state (as
+// before the upgrade), so that the handler's ICA initialisation can bind its port.
+func TestC16Handler(t *testing.T) {
+	st := StatsFor("C16")
+	rapid.Check(t, func(t *rapid.T) {
+		w, ctx := caseNoICA()
+		v := &VestWorld{W: w, App: w.App, Ctx: ctx.WithBlockTime(nsTime(T0.UnixNano() + secNs)), NowNs: T0.UnixNano() + secNs, fresh: 1000}
+		runC16(t, st, v, true)
+	})
+}
+
+func runC16(t *rapid.T, st *Stats, v *VestWorld, viaHandler bool) {
+	{
 		app, ctx := v.App, v.Ctx
 		cdc := app.AppCodec()
 		vstore := ctx.KVStore(app.GetKey(vestingtypes.StoreKey))
@@ -256,7 +276,7 @@ func TestC16(t *testing.T) {
 			}
 			legacy.Minters = append(legacy.Minters, lm)
 		}
-		invalidLegacyMinter := rapid.IntRange(0, 4).Draw(t, "invalidLegacyMinter") == 0
+		invalidLegacyMinter := !viaHandler && rapid.IntRange(0, 4).Draw(t, "invalidLegacyMinter") == 0
 		if invalidLegacyMinter {
 			e := mp.StartTime.Add(50 * 365 * 24 * time.Hour)
 			legacy.Minters[len(legacy.Minters)-1].EndTime = &e // the last period must be open ended
@@ -276,17 +296,40 @@ func TestC16(t *testing.T) {
 		minterParamsPre := ctx.KVStore(app.GetKey(mintertypes.StoreKey)).Get(mintertypes.ParamsKey)
 
 		// ---------- run the upgrade's sequence through its public entry points
-		if err := vestingkeeper.NewMigrator(app.CfevestingKeeper, ssV).Migrate2to3(ctx); err != nil {
-			t.Fatalf("vesting store migration failed on a valid pre-upgrade store: %v", err)
-		}
-		errM := minterkeeper.NewMigrator(app.CfeminterKeeper, ssM).Migrate2to3(ctx)
-		errD := distrkeeper.NewMigrator(app.CfedistributorKeeper, ssD).Migrate2to3(ctx)
-		v120.UpdateVestingAccountTraces(ctx, app)
-		if err := v120.ModifyVestingPoolsState(ctx, app); err != nil {
-			t.Fatalf("ModifyVestingPoolsState failed: %v", err)
-		}
-		if err := v120.ModifyVestingAccountsState(ctx, app); err != nil {
-			t.Fatalf("ModifyVestingAccountsState failed: %v", err)
+		var errM, errD error
+		if viaHandler {
+			vm := app.UpgradeKeeper.GetModuleVersionMap(ctx)
+			vm[vestingtypes.ModuleName], vm[mintertypes.ModuleName], vm[distrtypes.ModuleName] = 2, 2, 2
+			delete(vm, "interchainaccounts")
+			// SetModuleVersionMap only adds/overwrites entries: remove the stale one by hand
+			upStore := ctx.KVStore(app.GetKey("upgrade"))
+			upStore.Delete(append([]byte{0x2}, []byte("interchainaccounts")...))
+			app.UpgradeKeeper.SetModuleVersionMap(ctx, vm)
+			var pan interface{}
+			func() {
+				defer func() { pan = notRapid(recover()) }()
+				app.UpgradeKeeper.ApplyUpgrade(ctx, upgradetypes.Plan{Name: v120.UpgradeName, Height: ctx.BlockHeight()})
+			}()
+			if pan != nil {
+				t.Fatalf("the v1.2.0 upgrade handler failed on a valid pre-upgrade state: %v", pan)
+			}
+			after := app.UpgradeKeeper.GetModuleVersionMap(ctx)
+			if after[vestingtypes.ModuleName] != 3 || after[mintertypes.ModuleName] != 3 || after[distrtypes.ModuleName] != 3 {
+				t.Fatalf("module versions after the upgrade: %v", after)
+			}
+		} else {
+			if err := vestingkeeper.NewMigrator(app.CfevestingKeeper, ssV).Migrate2to3(ctx); err != nil {
+				t.Fatalf("vesting store migration failed on a valid pre-upgrade store: %v", err)
+			}
+			errM = minterkeeper.NewMigrator(app.CfeminterKeeper, ssM).Migrate2to3(ctx)
+			errD = distrkeeper.NewMigrator(app.CfedistributorKeeper, ssD).Migrate2to3(ctx)
+			v120.UpdateVestingAccountTraces(ctx, app)
+			if err := v120.ModifyVestingPoolsState(ctx, app); err != nil {
+				t.Fatalf("ModifyVestingPoolsState failed: %v", err)
+			}
+			if err := v120.ModifyVestingAccountsState(ctx, app); err != nil {
+				t.Fatalf("ModifyVestingAccountsState failed: %v", err)
+			}
 		}
 
 		// ---------- expected post-state
@@ -475,8 +518,11 @@ func TestC16(t *testing.T) {
 		}
 
 		nt := ownerPresent && len(owners) >= 2
-		st.Case(nt, map[string]interface{}{"pre_pools": fmt.Sprint(pre), "types": tnames, "traces": len(tracesPre), "minter": mcfg, "founders": fmt.Sprint(founders)}, classList(classes)...)
-	})
+		if viaHandler {
+			classes["via_upgrade_handler"] = true
+		}
+		st.Case(nt, map[string]interface{}{"pre_pools": fmt.Sprint(pre), "types": tnames, "traces": len(tracesPre), "minter": mcfg, "founders": fmt.Sprint(founders), "via_handler": viaHandler}, classList(classes)...)
+	}
 }
 
 type tFatal struct{ t *rapid.T }
